@@ -116,7 +116,7 @@ def counter_verify(chk, F, rule, cfg):
                     msg = e.data[2][1]
                     okv = strip(msg)[0] == 'agg' and strip(msg)[3] == 'FailedVerification'
                     has_path = mentions(msg, lambda x: x[0] == 'ref' and x[1][0] == ('ptr', ('param', 0, 2)) and x[1][1][-1:] == (('f', 'path'),))
-                    has_pat = mentions(msg, lambda x: is_call(x, r'core::ops::Fn::call$'))
+                    has_pat = mentions(msg, lambda x: is_call(x, r'core::ops::(Fn::call|FnMut::call_mut|FnOnce::call_once)$'))
                     has_actual = mentions(msg, is_actual)
                     has_bound = mentions(msg, lambda x: is_minimum(x))
                     chk.ob('R03.5', 'the error line names the method path, the pattern, the bound and the actual count', okv and has_path and has_pat and has_actual and has_bound, config=cfg,
@@ -181,9 +181,33 @@ def fnmocker_verify_pipeline(chk, F, rule, cfg, fn, paths):
     return True
 
 
+def _or_fold(v):
+    """false | (n1 != 0) | (n2 != 0) ...  ->  [n1, n2, ...] (the values whose non-zero-ness is folded); None if v is not of that form"""
+    v = strip(v)
+    if v == ('c', False):
+        return []
+    if v[0] == 'bin' and v[1] == 'BitOr':
+        a, b = _or_fold(v[2]), _or_fold(v[3])
+        return None if a is None or b is None else a + b
+    cmp = as_comparison(v)
+    if cmp and cmp[0] in ('Ne', 'Gt', 'Lt'):
+        l, r = linear(cmp[1]), linear(cmp[2])
+        if l is None or r is None:
+            return None
+        if cmp[0] == 'Lt':
+            l, r = r, l          # 0 < n
+        if r[0] or r[1] != 0 or l[1] != 0 or len(l[0]) != 1:
+            return None
+        (s_, c_), = l[0].items()
+        if c_ != 1:
+            return None
+        return [strip(s_[1]) if s_[0] == 'field' else s_]
+    return None
+
+
 def fnmocker_verify(chk, F, rule, cfg):
     fn = F.fn('fn_mocker::FnMocker::verify')
-    paths = symex.Interp(F).run(fn)
+    paths = symex.Interp(F, loop_bound=3).run(fn)      # (two full iterations: an accumulator that is overwritten instead of added to shows up only then)
     chk.analysed(fn)
     if paths and all(p.called(r'Iterator>?::sum$') and not any(L.is_iter_next(strip(d.value)) for d in p.decisions) for p in paths):
         if fnmocker_verify_pipeline(chk, F, rule, cfg, fn, paths):
@@ -224,6 +248,14 @@ def fnmocker_verify(chk, F, rule, cfg):
                     if not zero[0] and zero[1] == 0:
                         ok_acc = acc[1] == 0 and all(c == 1 and is_call(strip(s[1]) if s[0] == 'field' else s, r'^counter::CallCounter::verify$') for s, c in acc[0].items()) and len(acc[0]) == len(vs)
                         total_dec = ((cmp[0] == 'Eq') == t, ok_acc, show(inner))
+        if vs and total_dec is None:
+            # the same test as a flag: any_i (count_i != 0), folded with `|` from `false`; "nothing matched" <=> the flag is false <=> the sum is 0
+            for d in p.decisions:
+                inner, t = L.truth_of(d)
+                terms = _or_fold(inner) if t is not None else None
+                if terms:
+                    ok_acc = len(terms) == len(vs) and len(set(terms)) == len(terms) and all(is_call(x, r'^counter::CallCounter::verify$') for x in terms)
+                    total_dec = (not t, ok_acc, show(inner))
         if vs:
             if total_dec is None:
                 chk.ob(rule, 'after the loop the summed counts are compared with 0', False, config=cfg, fn=fn, site='never-called', what='no total == 0 test', found=[show(d.value) for d in p.decisions][-2:])
